@@ -133,6 +133,29 @@ def run(ctx):
                                         q, pat, corr.flag_names(fv), got_pure, got_full, got_conc, want_pure, want_conc),
                                         {'path': q, 'pattern': pat, 'flags': corr.flag_names(fv), 'tree': spec, 'is_dir': isdir})
                                     break
+                # exclusions are right-anchored like the patterns they go with: rglob with exclusions yields q exactly when q.match
+                # with the same exclusions (REALPATH) accepts it - given inline (NEGATE) or through exclude=
+                for inc_, exc_ in (('*.txt', 'x.txt'), ('*', 'sub'), ('*.py', 'mod.py'), ('*/*', 's2/*'), ('*', 'lib/*')):
+                    for how_ in ('inline', 'exclude='):
+                        for fx in (0, PL.GLOBSTAR, PL.DOTGLOB):
+                            try:
+                                if how_ == 'inline':
+                                    ylds = set(os.path.relpath(str(p), T.root) for p in PL.Path('.').rglob([inc_, '!' + exc_], flags=fx | PL.NEGATE))
+                                    acc = lambda q_: PL.Path(q_).match([inc_, '!' + exc_], flags=fx | PL.NEGATE | PL.REALPATH)
+                                else:
+                                    ylds = set(os.path.relpath(str(p), T.root) for p in PL.Path('.').rglob(inc_, flags=fx, exclude=exc_))
+                                    acc = lambda q_: PL.Path(q_).match(inc_, flags=fx | PL.REALPATH, exclude=exc_)
+                                for q in T.entries():
+                                    if globcommon.hid(q) or any(os.path.islink(os.path.join(T.root, *q.split('/')[:k])) for k in range(1, len(q.split('/')) + 1)):
+                                        continue
+                                    evals += 1
+                                    if acc(q) != (q in ylds):
+                                        ctx.counterexample('Path(%r).match(%r minus %r (%s), %s|REALPATH) = %r but rglob %s it' % (
+                                            q, inc_, exc_, how_, corr.flag_names(fx), acc(q), 'yields' if q in ylds else 'does not yield'),
+                                            {'path': q, 'pattern': inc_, 'exclusion': exc_, 'how': how_, 'flags': corr.flag_names(fx), 'tree': spec})
+                                        raise StopIteration
+                            except StopIteration:
+                                break
                 # errors - the same for every path object naming an entry of the tree: the root, a directory, a regular file, a link
                 objs = [root] + [root.joinpath(e_) for e_ in T.entries()[:6]]
                 err_cases = []
